@@ -17,6 +17,7 @@ use log::info;
 use message::InboundIn;
 use message::OutboundIn;
 use octo_squirrel::codec::BytesCodec;
+use octo_squirrel::codec::DatagramCodec;
 use octo_squirrel::codec::QuicStream;
 use octo_squirrel::codec::WebSocketFramed;
 use octo_squirrel::protocol::address::Address;
@@ -192,7 +193,7 @@ where
     Si: Sink<OutboundIn, Error = anyhow::Error> + Unpin,
     St: Stream<Item = Result<InboundIn, anyhow::Error>> + Unpin,
 {
-    let (outbound_sink, outbound_stream) = UdpFramed::new(outbound, BytesCodec).split();
+    let (outbound_sink, outbound_stream) = UdpFramed::new(outbound, DatagramCodec::default()).split();
     // datagrams have no end-of-stream of their own: the relay ends with the client's stream
     relay_bidirectional(inbound_sink, inbound_stream, outbound_sink, outbound_stream, first, Duration::ZERO).await
 }
